@@ -333,7 +333,7 @@ func shortHash(s string) string {
 func evStr(es []hapi.Event) string {
 	var parts []string
 	for _, e := range es {
-		parts = append(parts, fmt.Sprintf("%s:%s lc%d lrc%d id%x d%x", e.Client, hapi.ResultName(e.Result), e.LCount, e.LRCount, e.LockId[15], e.Data))
+		parts = append(parts, fmt.Sprintf("%s:r%d=%s lc%d lrc%d id%x d%x", e.Client, e.Req, hapi.ResultName(e.Result), e.LCount, e.LRCount, e.LockId[15], e.Data))
 	}
 	return strings.Join(parts, " ")
 }
